@@ -167,7 +167,7 @@ theorem pres_parse : ∀ fuel,
         split
         · exact pres_pure _
         · split
-          · exact pres_attempt (ihIn _ _ _)
+          · exact pres_attemptLoad _ (ihIn _ _ _)
           · exact pres_pure _
 
 end LyModel.Ctx
